@@ -1,6 +1,6 @@
 #!/bin/sh
 # usage: tools/confirm_seed.sh <PROP> <M1|M2>   -- confirm a sub-agent's mutant in its scratch worktree /tmp/wt/<PROP>
-ID="$1"; M="$2"; WT=/tmp/wt/$ID; OUT=$WT/_out; LOG=/tmp/wt/confirm_${ID}_$M.log
+ID="$1"; M="$2"; BASE=${SEED_BASE:-/tmp/wt}; WT=$BASE/$ID; OUT=$WT/_out; LOG=$BASE/confirm_${ID}_$M.log
 cd "$WT" || exit 2
 git checkout -q -- . ; git apply --check "$OUT/$M.diff" || { echo "$ID $M: patch does not apply" | tee $LOG; exit 2; }
 export PYTHONPATH=$WT REPO_ROOT=$WT
